@@ -37,7 +37,7 @@ SkyClauses(r) ==
            <<"zero-pivot<=>needs-pivoting", rat => (run.zero <=> ~NeedsNoPivoting(r.A, r.perm))>>,
            <<"solve: A x = f", (rat /\ built /\ ~run.zero /\ ~r.big) =>
                                   (ref.ok /\ SkylineSolveOK(r.A, RVecOf(r.f), run.x) /\ VecCloseFix(r.x, ref.x, n, r.sh, FixTol))>>,
-           <<"residual", built => (r.res <= Tol /\ r.err <= Tol)>>,
+           <<"residual", built => (r.finite /\ r.res <= Tol /\ r.err <= Tol)>>,
            <<"second-call-same", r.again>>,
            <<"no-exception-when-dominant", r.tag \in {"dom", "spd", "rand"} => built>>,
            <<"singular-reported", r.tag = "zerorow" => r.exc = 1>> >>
@@ -48,7 +48,8 @@ SkyDrift(r) == r.rat /\ r.exc = 0 /\ IsPermutation(r.perm, r.A.n) /\
 InvClauses(r) ==
     LET n   == r.n
         run == InverseRun(n, FlatOf(r.A, n))
-    IN  << <<"inverse-residual", r.eres <= Tol /\ r.err <= TolInv>>,
+    IN  << <<"inverse-finite", r.finite>>,
+           <<"inverse-residual", r.eres <= Tol /\ r.err <= TolInv>>,
            <<"inverse=rational-inverse", (r.rat /\ ~r.big) =>
                  /\ ~run.sing /\ InverseOK(n, FlatOf(r.A, n), run.inv)
                  /\ Len(r.out) = n * n
